@@ -13,6 +13,21 @@ pub struct Pkg {
     /// Names of the component's imports / exports (for workload generation).
     pub imports: Vec<String>,
     pub exports: Vec<String>,
+    /// false for encoded WIT packages (interfaces / worlds as types)
+    pub is_component: bool,
+}
+
+/// Indices (into `library()`) of the entries that are components, in library order.
+pub fn component_indices() -> &'static Vec<usize> {
+    static IDX: OnceLock<Vec<usize>> = OnceLock::new();
+    IDX.get_or_init(|| {
+        library()
+            .iter()
+            .enumerate()
+            .filter(|(_, p)| p.is_component)
+            .map(|(i, _)| i)
+            .collect()
+    })
 }
 
 const SHARED_1_0: &str = r#"
@@ -217,6 +232,157 @@ const WAT_COMPONENTS: &[(&str, Option<&str>, &str)] = &[
     ),
 ];
 
+/// log@1.2.0 is on the semver track of 1.0.0 / 1.1.0 but defines `level` differently
+/// (a merge conflict), and `geo` gives interfaces a second interface to `use` from.
+const SHARED_1_2: &str = r#"
+package foo:shared@1.2.0 {
+  interface types {
+    record point { x: s32, y: s32 }
+    type id = u64;
+    enum color { red, green, blue }
+  }
+  interface geo {
+    record pt3 { x: f32, y: f32, z: f32 }
+    type dist = f64;
+    enum axis { x, y, z }
+  }
+  interface log {
+    use types.{id};
+    log: func(who: id, msg: string);
+    level: func() -> u32;
+  }
+  interface nav {
+    use types.{point, id};
+    use geo.{pt3, dist, axis};
+    lift: func(p: point) -> pt3;
+    measure: func(a: pt3, b: pt3, along: axis) -> dist;
+    owner: func() -> id;
+  }
+}
+"#;
+
+const WIT_COMPONENTS_2: &[(&str, Option<&str>, &str, &[&str])] = &[
+    (
+        "test:conflict",
+        None,
+        "package test:conflict;\nworld w { import foo:shared/log@1.2.0; export run3: func(); }",
+        &[SHARED_1_2],
+    ),
+    (
+        "test:nav",
+        None,
+        "package test:nav;\nworld w { import foo:shared/nav@1.2.0; export foo:shared/geo@1.2.0; export go: func(); }",
+        &[SHARED_1_2],
+    ),
+    (
+        "test:navimpl",
+        Some("2.0.0"),
+        "package test:navimpl;\nworld w { export foo:shared/nav@1.2.0; }",
+        &[SHARED_1_2],
+    ),
+    (
+        "test:plain",
+        None,
+        "package test:plain;\nworld w { import a: func(); export c: func(); export d: func(); }",
+        &[],
+    ),
+];
+
+/// Unusual but valid hand-shaped components.
+const WAT_COMPONENTS_2: &[(&str, Option<&str>, &str)] = &[
+    (
+        "odd:empty-component-type",
+        None,
+        r#"(component (type (component)) (export "empty" (type 0)))"#,
+    ),
+    (
+        "odd:imports-only-type",
+        None,
+        r#"(component (type (component (import "a" (func)))) (export "imports-only" (type 0)))"#,
+    ),
+    (
+        "odd:empty-instance-type",
+        None,
+        r#"(component (type (instance)) (export "empty-inst" (type 0)) (import "i" (instance (type 0))) (export "j" (instance 0)))"#,
+    ),
+    (
+        "odd:nested",
+        Some("0.0.1"),
+        r#"(component
+  (component $inner (import "f" (func)) (export "g" (func 0)))
+  (import "f" (func $f))
+  (instance $i (instantiate $inner (with "f" (func $f))))
+  (export "inner" (component $inner))
+  (export "g" (func $i "g"))
+)"#,
+    ),
+    (
+        "odd:resource",
+        None,
+        r#"(component
+  (import "res" (type $r (sub resource)))
+  (import "mk" (func (result (own $r))))
+  (import "peek" (func (param "r" (borrow $r)) (result u32)))
+  (export "res2" (type $r))
+  (export "mk2" (func 0))
+)"#,
+    ),
+    (
+        "odd:core-module",
+        None,
+        r#"(component
+  (core module $m (func (export "f")))
+  (import "n" (core module (export "f" (func))))
+  (export "m" (core module $m))
+)"#,
+    ),
+];
+
+pub const WIT_PACKAGES_2: &[(&str, Option<&str>, &str)] = &[
+    (
+        "solo:one",
+        None,
+        "package solo:one;\nworld only { import a: func(); export c: func(); export d: func(); }\n",
+    ),
+    (
+        "solo:none",
+        None,
+        "package solo:none;\ninterface i { f: func(); }\n",
+    ),
+    (
+        "foo:shared",
+        Some("1.2.0"),
+        r#"package foo:shared@1.2.0;
+interface types {
+  record point { x: s32, y: s32 }
+  type id = u64;
+  enum color { red, green, blue }
+}
+interface geo {
+  record pt3 { x: f32, y: f32, z: f32 }
+  type dist = f64;
+  enum axis { x, y, z }
+}
+interface log {
+  use types.{id};
+  log: func(who: id, msg: string);
+  level: func() -> u32;
+}
+interface nav {
+  use types.{point, id};
+  use geo.{pt3, dist, axis};
+  lift: func(p: point) -> pt3;
+  measure: func(a: pt3, b: pt3, along: axis) -> dist;
+  owner: func() -> id;
+}
+world nav-world {
+  import nav;
+  export geo;
+}
+"#,
+    ),
+];
+
 fn build_wit(world_text: &str, deps: &[&str]) -> anyhow::Result<Vec<u8>> {
     use wit_component::{ComponentEncoder, StringEncoding};
     let mut text = String::from(world_text);
@@ -365,6 +531,7 @@ pub fn library() -> &'static Vec<Pkg> {
                 bytes,
                 imports,
                 exports,
+                is_component: true,
             });
         }
         for (name, version, text) in WAT_COMPONENTS {
@@ -377,6 +544,7 @@ pub fn library() -> &'static Vec<Pkg> {
                 bytes,
                 imports,
                 exports,
+                is_component: true,
             });
         }
         for (name, version, text) in WIT_PACKAGES {
@@ -389,6 +557,47 @@ pub fn library() -> &'static Vec<Pkg> {
                 bytes,
                 imports,
                 exports,
+                is_component: false,
+            });
+        }
+        // ---- second generation (appended so that earlier indices stay stable) ----
+        for (name, version, world, deps) in WIT_COMPONENTS_2 {
+            let bytes = build_wit(world, deps)
+                .unwrap_or_else(|e| panic!("corpus component {name} does not build: {e:?}"));
+            let (imports, exports) = names_of(&bytes);
+            v.push(Pkg {
+                name,
+                version: *version,
+                bytes,
+                imports,
+                exports,
+                is_component: true,
+            });
+        }
+        for (name, version, text) in WAT_COMPONENTS_2 {
+            let bytes = wat::parse_str(text)
+                .unwrap_or_else(|e| panic!("corpus component {name} does not assemble: {e:?}"));
+            let (imports, exports) = names_of(&bytes);
+            v.push(Pkg {
+                name,
+                version: *version,
+                bytes,
+                imports,
+                exports,
+                is_component: true,
+            });
+        }
+        for (name, version, text) in WIT_PACKAGES_2 {
+            let bytes = encode_wit_package(text)
+                .unwrap_or_else(|e| panic!("corpus WIT package {name} does not encode: {e:?}"));
+            let (imports, exports) = names_of(&bytes);
+            v.push(Pkg {
+                name,
+                version: *version,
+                bytes,
+                imports,
+                exports,
+                is_component: false,
             });
         }
         v
